@@ -38,4 +38,9 @@ theorem network_confined :
     read. -/
 theorem deadline_before_io : Generated.connectionOrder = ["dial", "setdeadline", "write", "read"] := by decide
 
+/-- The only TLS connection is made with a nil configuration: Go's defaults, which keep no client
+    session cache (no ticket or pre-shared key is ever offered, so successive fetches are not
+    linkable at the TLS layer) and present no client certificate. -/
+theorem tls_default_config : Generated.tlsDialArgs = ["DialWithDialer(dialer, \"tcp\", hostport, nil)"] := by decide
+
 end Facts04
